@@ -148,8 +148,16 @@ def grammar_cases(rng: random.Random) -> List[Dict[str, Any]]:
                           (f';1/0 + {huge}\n', ['/']), (f'def hm_{lbl} a {{\n;a/0\n}}\nhm_{lbl} {huge}\n', ['/', f'hm_{lbl}']),
                           (f'segment {huge}\n;\n', ['segment', 'space']), (f'reserve {huge}\n', ['reserve', 'space', 'memory']),
                           (f'wflip {huge}, 1\n', []), (f'wflip 0, {huge}\n', []), (f'lz_{lbl}:\n;lz_{lbl} + {huge}\n', []),
-                          (f'def hm_{lbl} a {{\n;a\n}}\nhm_{lbl} {huge}, {huge}\n', [f'hm_{lbl}'])):
-        add('huge-constant', pre + text, mention)
+                          (f'def hm_{lbl} a {{\n;a\n}}\nhm_{lbl} {huge}, {huge}\n', [f'hm_{lbl}']),
+                          (f';{nines} {nines}\n', []), (f'{nines}:\n;\n', []), (f'pad (0-{nines})\n', ['pad']), (f'pad {huge}*0\n', ['pad']),
+                          (f'def hr_{lbl} a {{\n;a\n}}\nrep(0-{nines}, i) hr_{lbl} i\n', ['rep', f'hr_{lbl}']),
+                          (f'segment (0-{huge})\n;\n', ['segment', 'space']), (f'reserve (0-{huge})\n', ['reserve', 'space']),
+                          (f'wflip (0-{huge}), 1\n', []), (f'kq_{lbl} = {huge}\nkq_{lbl} = 5\n;kq_{lbl}\n', [f'kq_{lbl}']),
+                          (f';{huge} ? never_declared_{lbl} : 1\n', [f'never_declared_{lbl}']), (f'x_{lbl} = {huge} {huge}\n', [])):
+        # (which of several true diagnoses comes first - the huge operand, "not enough space", the undeclared name - depends on the
+        # stage that meets the statement: this class is about never reaching the catch-all, the message content is left open)
+        add('huge-constant', pre + text, [])
+        del mention
     # a user label spelled like one the assembler declares for itself
     k = rng.choice([0, 1])
     seg1, seg2 = min(dw * 64, (1 << w) // 8), min(dw * 128, (1 << w) // 4)
